@@ -85,6 +85,13 @@ def alias_cases():
         if kind == "l": N = {"p": "src2/p", "k": "l", "target": "nowhere"}
         extra_ = [F("src2/p/inner", 5, 3)] if kind == "d" else []
         add("bystander-behind-link-%s" % kind, base + [D("src2"), N] + extra_ + [D("dst"), D("dst/src2"), L("dst/src2/p", "../../other/keep")], ["src2", "dst"], ["other/keep"], True)
+    # a link to a directory elsewhere sitting where a source *sub*directory maps: nothing may be created or changed over there, with
+    # or without -L (which changes how the source's links are read, not the destination's)
+    nest = [D("src2"), D("src2/p"), F("src2/p/inner", 5, 3), F("src2/p/keep", 6, 4), D("dst"), D("dst/src2"), L("dst/src2/p", "../../other")]
+    for opt in ([], ["-L"], ["-L", "--no-perms"], ["--gitignore"]):
+        add("dir-onto-nested-dirlink" + "".join(opt), base + nest, opt + ["src2", "dst"], ["other/keep", "other"], True)
+    add("dir-onto-nested-dirlink-into-source-L", base + [D("src2"), D("src2/p"), F("src2/p/f", 5, 3), D("src2/q"), F("src2/q/f", 6, 4), D("dst"), D("dst/src2"), L("dst/src2/p", "../../src2/q")],
+        ["-L", "src2", "dst"], ["src2/q/f", "src2/p/f"], True)
     # the destination holds, under the name of one source, a link or hard link to *another* source of the same run
     two = [F("a", 3000, 101), F("b", 5000, 102), D("dd")]
     add("dest-symlink-to-other-source", base + two + [L("dd/a", "../b")], ["a", "b", "dd"], ["a", "b"])
